@@ -48,6 +48,17 @@ func weightsFor(profile string) map[string]int {
 		base["oracle_round"] = 12
 		base["oracle_claim"] = 10
 		base["stake"] = 4
+	case "C16":
+		base["confirm_fuzz"] = 16
+		base["sign_all"] = 10
+		base["orch_sign"] = 8
+		base["user_send"] = 14
+		base["stake"] = 4
+	case "C17":
+		base["set_keys"] = 22
+		base["poll_all"] = 12
+		base["ext_deposit"] = 10
+		base["stake"] = 4
 	case "C19", "C11":
 		base["oracle_round"] = 3
 		base["user_send"] = 18
@@ -318,6 +329,21 @@ func (g *Gen) Step() {
 		if g.FaultP > 0 {
 			g.emit(Intent{T: "node_restart", Pick: g.R.Intn(4)})
 		}
+	case "confirm_fuzz":
+		muts := []string{"", "", "unknown", "wrong_token", "wrong_chain", "other_signer", "garbage", "short_sig", "foreign"}
+		in := Intent{T: "confirm_fuzz", V: g.R.Intn(len(w.Vals)), Chain: g.chain(), Op: []string{"ss", "batch"}[g.R.Intn(2)], Pick: g.R.Intn(6), Mut: muts[g.R.Intn(len(muts))], Net: g.net()}
+		if g.R.Intn(5) == 0 {
+			in.As = "oper"
+		}
+		g.emit(in)
+	case "set_keys":
+		ops := []string{"", "", "fresh", "fresh", "steal_ext", "steal_ext_key", "steal_orch", "stale", "future", "wrong_key", "replay", "unknown_val", "other_signer"}
+		chains := append(append([]string{}, Chains...), "tron")
+		in := Intent{T: "set_keys", V: g.R.Intn(len(w.Vals)), Chain: chains[g.R.Intn(len(chains))], Op: ops[g.R.Intn(len(ops))], Pick: g.R.Intn(len(w.Vals)), Net: g.net()}
+		if g.R.Intn(8) == 0 {
+			in.V = 100 + g.R.Intn(2)
+		}
+		g.emit(in)
 	case "adv_event":
 		g.advEvent()
 	case "size_burst":
